@@ -378,3 +378,43 @@ pub mod zeroize {
 pub mod rand {
     pub mod rngs { pub struct OsRng; }
 }
+
+/// serde, reduced to what the crate's own `Serialize`/`Deserialize` impls touch: a serializer that is handed ONE string, and
+/// a deserializer that either holds one string or does not.  (Every JSON document of an `Enr` is one string token.)
+pub mod serde {
+    use super::super::sp::*;
+    use vstd::prelude::*;
+    pub trait Serializer: Sized {
+        type Ok;
+        type Error;
+        /// `r` is what this serializer answers when it is handed the string `s`
+        spec fn ser_str(self, s: Seq<char>, r: Result<Self::Ok, Self::Error>) -> bool;
+        fn serialize_str(self, v: &str) -> (r: Result<Self::Ok, Self::Error>)
+            ensures self.ser_str(v@, r);
+    }
+    pub trait Serialize {
+        fn serialize<S: Serializer>(&self, serializer: S) -> Result<S::Ok, S::Error>;
+    }
+    pub mod de {
+        use vstd::prelude::*;
+        pub trait Error: Sized {
+            fn custom<T: core::fmt::Display>(msg: T) -> Self;
+        }
+    }
+    pub trait Deserializer<'de>: Sized {
+        type Error: de::Error;
+        /// the string this deserializer holds, if what it holds is a string
+        spec fn de_string(self) -> Option<Seq<char>>;
+    }
+    pub trait Deserialize<'de>: Sized {
+        fn deserialize<D: Deserializer<'de>>(deserializer: D) -> Result<Self, D::Error>;
+    }
+    /// `String: Deserialize`: yields exactly the string the deserializer holds, an error if it holds something else
+    pub uninterp spec fn de_err<E>() -> E;
+    impl<'de> Deserialize<'de> for String {
+        #[verifier::external_body]
+        fn deserialize<D: Deserializer<'de>>(deserializer: D) -> (r: Result<Self, D::Error>)
+            ensures match deserializer.de_string() { Some(s) => r matches Ok(x) && x@ == s, None => r is Err },
+        { unimplemented!() }
+    }
+}
